@@ -242,6 +242,14 @@ def c02_streams(ctx):
             for dd in range(100):
                 t = f"{cc}{dd:02d}{b}"
                 yield from both("iban_new", "spec_iban_accept", [enc(t), "0", "0"], "all-100-pairs", True)
+    # BBANs whose computed check digits are 02 / 97 / 98: the aliases 99 / 00 / 01 leave remainder 1 too
+    for cc in (countries(ctx) if not ctx.quick else rng.sample(countries(ctx), 40)):
+        for _ in range(600):
+            b = random_bban(ctx, cc)
+            if iso_digits(cc, b) in ("02", "97", "98"):
+                for dd in ("00", "01", "02", "97", "98", "99"):
+                    yield from both("iban_new", "spec_iban_accept", [enc(cc + dd + b), "0", "0"], "alias-pairs", True)
+                break
     # malformed arguments of from_bban (correspondence only)
     for cc, b in [("de", "370400440532013000"), ("DE", "37040044053201300"), ("DE", "3704004405320130000"),
                   ("XX", "1234"), ("", ""), ("DE", ""), ("DE", "37040044 0532013000"), ("D", "E370400440532013000"),
@@ -428,6 +436,7 @@ def c10_streams(ctx):
     for cc in (countries(ctx) if not ctx.quick else rng.sample(countries(ctx), 30)):
         texts.append(valid_iban(ctx, cc))
     texts += [random_bic(ctx) for _ in range(30 if ctx.quick else 300)]
+    texts += [random_bic(ctx, long=False) + "XXX" for _ in range(4)] + ["ABNAJPJTXXX", "DEUTDEFFXXX", "GENODEM1XXX"]
     texts += [random_text(ctx) for _ in range(40 if ctx.quick else 600)]
     texts += ["", "DE", "GENOD", "GENODEM1G", "A", "DE89 3704", "ß", "ǆ"]
     for t in texts:
@@ -528,7 +537,7 @@ def registry_case(files, tag):
     margs = []
     for n, doc in sorted((f for f in files if f[0].endswith(".json")), key=lambda f: f[0]):
         margs += ["1" if n[:-len(".json")].endswith("v2") else "0", jenc(doc)]
-    return Case("corr", "registry_get", iargs, tag, True, "eq", margs)
+    return Case("prop", "registry_get", iargs, tag, True, "eq", margs)
 
 
 def c18_streams(ctx):
@@ -538,9 +547,9 @@ def c18_streams(ctx):
     n = 300 if ctx.quick else 6000
     for _ in range(n):
         l, r = rand_dict(rng), rand_dict(rng)
-        yield Case("corr", "merge_dicts", [jenc(l), jenc(r)], "merge-random", True)
+        yield Case("prop", "merge_dicts", [jenc(l), jenc(r)], "merge-random", True)
     for _ in range(n // 6):
-        yield Case("corr", "parse_v2", [jenc(rand_v2(rng))], "parse_v2-random", True)
+        yield Case("prop", "parse_v2", [jenc(rand_v2(rng))], "parse_v2-random", True)
     for doc in ({}, {"entries": []}, {"entries": [], "expand_from": "a"}, {"entries": [{"a": 1}], "expand_from": "b", "expand_into": "c"},
                 {"entries": [{"b": 5}], "expand_from": "b", "expand_into": "c"}, [], "x"):
         yield Case("corr", "parse_v2", [jenc(doc)], "parse_v2-malformed", True)
@@ -611,10 +620,43 @@ def c12_keys(ctx):
     return keys, bics
 
 
+def interesting_keys(ctx):
+    """(country, bank code) keys with several entries, in particular those whose first entry is not the primary one,
+    and keys whose BICs are registered under another country"""
+    by = {}
+    for cc, code, bic, prim in ctx.facts["banks4"]:
+        if cc and code:
+            by.setdefault((cc, code), []).append((bic, prim))
+    multi = [k for k, v in by.items() if len(v) > 1]
+    not_first = [k for k, v in by.items() if len(v) > 1 and not v[0][1] and any(p for _b, p in v)]
+    foreign = [k for k, v in by.items() if any(b and len(b) >= 6 and b[4:6] != k[0] for b, _p in v)]
+    return multi, not_first, foreign
+
+
+def c12_targeted(ctx):
+    """lookup first, then the IBAN-level bank: the order the registry lists the entries in must survive the lookup"""
+    rng = ctx.rng
+    multi, not_first, foreign = interesting_keys(ctx)
+    pick = (not_first if not ctx.quick else rng.sample(not_first, min(len(not_first), 25))) \
+        + rng.sample(multi, min(len(multi), 25 if ctx.quick else 400)) \
+        + (foreign if not ctx.quick else rng.sample(foreign, min(len(foreign), 25)))
+    for cc, code in pick:
+        yield Case("prop", "candidates", [enc(cc), enc(code)], "targeted-candidates", True)
+        yield Case("prop", "from_bank_code", [enc(cc), enc(code)], "targeted-from_bank_code", True)
+        b = bban_around(ctx, cc, code)
+        if b is not None:
+            yield Case("prop", "iban_bank_lookup", [enc(cc), enc(b)], "targeted-iban-after-lookup", True)
+    bics = sorted({b for _cc, _code, b, _p in ctx.facts["banks4"] if b and any(True for _ in [0])})
+    fb = sorted({b for k in foreign for (b, _p) in [(x[2], x[3]) for x in ctx.facts["banks4"] if (x[0], x[1]) == k] if b})
+    for b in (fb if not ctx.quick else rng.sample(fb, min(len(fb), 40))):
+        yield Case("prop", "bic_domestic", [enc(b)], "targeted-reverse", True)
+
+
 def c12_streams(ctx):
     rng = ctx.rng
     NAMES["bank_names"] = ctx.facts["bank_names"]
     keys, bics = c12_keys(ctx)
+    yield from c12_targeted(ctx)
     ks = keys if not ctx.quick else rng.sample(keys, 500)
     for cc, code in ks:
         yield Case("corr", "candidates", [enc(cc), enc(code)], "candidates", True)
@@ -628,7 +670,7 @@ def c12_streams(ctx):
             yield Case("corr", "from_bank_code", [enc(c2), enc(mut)], "unlisted", True)
     bs = bics if not ctx.quick else rng.sample(bics, 300)
     for b in bs + ["GENODEM1XXX", "", "AAAADEFFXXX"]:
-        yield Case("corr", "bic_domestic", [enc(b)], "reverse", True)
+        yield Case("prop", "bic_domestic", [enc(b)], "reverse", True)
         yield Case("corr", "bic_names", [enc(b)], "reverse-names", True, "names:name")
         yield Case("corr", "bic_short_names", [enc(b)], "reverse-names", True, "names:short")
     # IBAN-level lookups around listed and unlisted bank codes
@@ -697,6 +739,31 @@ def national_candidates(ctx, cc, n):
     return list(zip(cands, verdicts))
 
 
+EDGE_VALUES = {"00", "01", "02", "97", "98", "99", "0", "1", "9", "A", "Z"}
+
+
+def national_edge_candidates(ctx, cc, scan):
+    """Scan `scan` random bodies (each over every value of the check field) with the extracted published-rule spec and keep
+    the rare ones: bodies for which NO check value is valid, and bodies whose valid check value is extreme (00/01/02/97/98/99...)."""
+    pairs = national_candidates(ctx, cc, scan)
+    pos = TWEAK[cc]
+    by_body = {}
+    for b, v in pairs:
+        key = "".join(ch for i, ch in enumerate(b) if i not in pos)
+        by_body.setdefault(key, []).append((b, v))
+    out = []
+    n_none = n_edge = 0
+    for key, lst in by_body.items():
+        valid = [b for b, v in lst if v == "1"]
+        if not valid and n_none < 4:
+            n_none += 1
+            out += lst
+        elif valid and n_edge < 8 and any("".join(b[i] for i in pos) in EDGE_VALUES for b in valid):
+            n_edge += 1
+            out += lst
+    return out
+
+
 def c06_streams(ctx):
     rng = ctx.rng
     n = 3 if ctx.quick else 40
@@ -704,11 +771,12 @@ def c06_streams(ctx):
         if cc not in ctx.facts["iban_rows"]:
             continue
         pairs = national_candidates(ctx, cc, n)
+        edge = national_edge_candidates(ctx, cc, 40 if ctx.quick else 400)
         valid = [b for b, v in pairs if v == "1"]
         invalid = [b for b, v in pairs if v == "0"]
-        chosen = valid + rng.sample(invalid, min(len(invalid), max(6, 2 * len(valid))))
+        chosen = valid + rng.sample(invalid, min(len(invalid), max(6, 2 * len(valid)))) + [b for b, _v in edge]
         for b in chosen:
-            tag = "accept-side" if b in valid else "reject-side"
+            tag = "accept-side" if b in valid else ("edge" if b not in invalid else "reject-side")
             yield Case("prop", "spec_published", [enc(cc), enc(b)], cc + "-" + tag, True)
             yield Case("corr", "validate_national", [enc(cc), enc(b)], cc + "-" + tag, True)
             iban = cc + iso_digits(cc, b) + b
@@ -777,7 +845,8 @@ def c08_inputs(ctx):
         w = {k: pos.get(k, [0, 0])[1] - pos.get(k, [0, 0])[0] for k in ("bank_code", "branch_code", "account_code")}
         banks = component_values(ctx, cc, "bank_code", w["bank_code"])
         if w["branch_code"]:
-            banks.append(component_values(ctx, cc, "bank_code", w["bank_code"])[0] + component_values(ctx, cc, "branch_code", w["branch_code"])[0])
+            comb = component_values(ctx, cc, "bank_code", w["bank_code"])[0] + component_values(ctx, cc, "branch_code", w["branch_code"])[0]
+            banks += [comb, comb + rng.choice(DIGITS), comb + "99", comb[:-1]]
         branches = component_values(ctx, cc, "branch_code", w["branch_code"]) if w["branch_code"] else ["", "", "1", "123"]
         accounts = component_values(ctx, cc, "account_code", w["account_code"])
         n = 8 if ctx.quick else 60
@@ -804,13 +873,39 @@ def c09_streams(ctx):
             args = [enc(cc), enc(bk), enc(ac), enc(br)]
             yield Case("prop", "spec_generate_national", args, "computed-validates-" + cc, True)
             yield Case("corr", "generate", args, "generate", True)
+    # computed national digits at the ends of their range (00/01/02/97/98/99, 0, 9, A, Z): found by scanning component
+    # triples through the MODEL's generate and reading the digits off the model's result
+    for cc in sorted(COMPUTING):
+        row = ctx.facts["iban_rows"].get(cc)
+        if not row or not row.get("positions") or "national_checksum_digits" not in row["positions"]:
+            continue
+        pos = row["positions"]
+        w = {k: pos.get(k, [0, 0])[1] - pos.get(k, [0, 0])[0] for k in ("bank_code", "branch_code", "account_code")}
+        trip = []
+        for _ in range(120 if ctx.quick else 1200):
+            trip.append((component_values(ctx, cc, "bank_code", w["bank_code"])[0],
+                         component_values(ctx, cc, "account_code", w["account_code"])[0],
+                         component_values(ctx, cc, "branch_code", w["branch_code"])[0] if w["branch_code"] else ""))
+        res = ctx.spec_eval(["\t".join(["generate", enc(cc), enc(bk), enc(ac), enc(br)]) for bk, ac, br in trip])
+        s0, e0 = pos["national_checksum_digits"]
+        kept = 0
+        for (bk, ac, br), r_ in zip(trip, res):
+            if not r_.startswith("OK "):
+                continue
+            iban = dec(r_[3:])
+            if iban[4:][s0:e0] in EDGE_VALUES and kept < (8 if ctx.quick else 60):
+                kept += 1
+                args = [enc(cc), enc(bk), enc(ac), enc(br)]
+                yield Case("prop", "spec_generate_national", args, "computed-edge-" + cc, True)
+                yield Case("corr", "generate", args, "generate-edge", True)
     # rebuild: nationally valid IBANs of every country with positions
     n = 2 if ctx.quick else 20
     for cc in NATIONAL:
         if cc not in ctx.facts["iban_rows"]:
             continue
         valid = [b for b, v in national_candidates(ctx, cc, n) if v == "1"]
-        for b in valid[: (3 if ctx.quick else 40)]:
+        edge = [b for b, _v in national_edge_candidates(ctx, cc, 30 if ctx.quick else 300)]
+        for b in valid[: (3 if ctx.quick else 40)] + edge:
             iban = cc + iso_digits(cc, b) + b
             yield Case("prop", "spec_rebuild", [enc(iban)], "rebuild-" + cc, True)
             yield Case("corr", "iban_decomp", [enc(iban), ";".join(enc(x) for x in ctx.facts["components"])], "rebuild-decomp", True)
@@ -998,6 +1093,7 @@ def history_orders(ctx):
             cs = []
         rng.shuffle(cs)
         cases += cs[: (150 if ctx.quick else 2500)]
+    cases += list(c12_targeted(ctx))
     lines = ["\t".join([c.fn, *c.args]) for c in cases]
     lines = ["history_probe\tbegin"] + lines + ["history_probe\tend"]
     facts_path = os.path.join(os.path.dirname(HERE), "coq", "theories", "Gen", "facts.json")
@@ -1038,7 +1134,12 @@ def c15_streams(ctx):
         cs = [c for c in gen(ctx) if c.kind == "corr" and c.post is None]
         rng.shuffle(cs)
         cases += cs[: (400 if ctx.quick else 6000)]
+    # method 88 and other account-dependent position rules: accounts with every third digit, in both orders
+    for a in ["0092525253", "0011234560", "0099913003", "0052525259", "0012525259", "0092525253"]:
+        cases.append(Case("corr", "algo_validate", [enc("DE:88"), enc(a), "-"], "history-88", True))
+    tail = list(c12_targeted(ctx))
     rng.shuffle(cases)
+    cases += tail
     for c in cases:
         c.tag = "history-" + c.fn
         yield c
@@ -1061,6 +1162,14 @@ def c16_streams(ctx):
     texts += [("bban", "DE"), ("bban", "XX123"), ("bban", "")]
     for k, t in texts:
         yield Case("prop", "spec_copies", [k, enc(t)], "copies-" + k, True)
+    # IBANs of one country whose check digits order opposite to their BBANs
+    for cc in rng.sample(countries(ctx), 6 if ctx.quick else 60):
+        pool = [valid_iban(ctx, cc) for _ in range(12)]
+        for a in pool:
+            for b_ in pool:
+                if a[2:4] < b_[2:4] and a[4:] > b_[4:]:
+                    yield Case("prop", "spec_value_laws", ["iban", enc(a), "iban", enc(b_)], "value-laws-same-country", True)
+                    yield Case("prop", "spec_value_laws", ["iban", enc(b_), "iban", enc(a)], "value-laws-same-country", True)
     strs = [("str", t) for _k, t in texts[:20]] + [("str", ""), ("str", "A"), ("str", "a")]
     allv = texts + strs
     for _ in range(300 if ctx.quick else 6000):
